@@ -353,3 +353,15 @@ func vfJSONCopy(src, dst any) {
 func vfReseedCPRNG(label string) {
 	common.VerifSeedCPRNG(sha256.Sum256([]byte("cprng:" + label)))
 }
+
+// vfDevClass names the environment deviations of a run ("default" if none) for violation signatures.
+func vfDevClass(devs []venv.Deviation) string {
+	if len(devs) == 0 {
+		return "default"
+	}
+	s := ""
+	for _, d := range devs {
+		s += d.Ans.String()
+	}
+	return s
+}
